@@ -64,13 +64,11 @@ class Sem:
     def fconst(self, v, ct=None):
         if self.num_mode == 'real':
             from fractions import Fraction
+            # a C floating literal denotes the nearest double: its exact rational value
             fr = Fraction(float(v)) if not isinstance(v, Fraction) else v
-            # decimal literals are meant exactly in real mode when given as str
-            if isinstance(v, str):
-                fr = Fraction(v)
             return z3.RealVal(str(fr))
         if self.num_mode == 'fp':
-            return z3.FPVal(float(v), z3.Float64())
+            return z3.FPVal(float(v), z3.Float32() if (ct is not None and getattr(ct, 'width', 64) == 32) else z3.Float64())
         if float(v) == 0.0:
             return _opq_zero
         return z3.Const('opaque_const_%r' % float(v), OpaqueNum)
@@ -326,9 +324,10 @@ class Sem:
                 v = z3.BV2Int(v, src.signed)
             return z3.ToReal(v)
         if self.num_mode == 'fp':
+            fs = z3.Float32() if getattr(dst, 'width', 64) == 32 else z3.Float64()
             if self.int_mode == 'bv':
-                return z3.fpSignedToFP(z3.RNE(), v, z3.Float64()) if src.signed else z3.fpUnsignedToFP(z3.RNE(), v, z3.Float64())
-            return z3.fpRealToFP(z3.RNE(), z3.ToReal(v), z3.Float64())
+                return z3.fpSignedToFP(z3.RNE(), v, fs) if src.signed else z3.fpUnsignedToFP(z3.RNE(), v, fs)
+            return z3.fpRealToFP(z3.RNE(), z3.ToReal(v), fs)
         if self.int_mode == 'bv':
             v = z3.BV2Int(v, src.signed)
         return z3.Function('opq_of_int', z3.IntSort(), OpaqueNum)(v)
